@@ -266,6 +266,86 @@ Proof. intro H. rewrite gen_vec_from_ssz_bytes_eq by exact H. reflexivity. Qed.
 Theorem gen_vec_metadata : Gen.vec_dec_is_ssz_fixed_len = Ok false. Proof. reflexivity. Qed.
 
 
+Theorem gen_decode_list_container_eq {A B} (d : bytes -> outcome A) (c : list A -> outcome B) bs max_len :
+  len bs <= usize_max ->
+  Gen.decode_list_of_variable_length_items d c bs max_len
+  = match bs with [] => c [] | _ => bind (decode_list_var d CVec bs max_len) c end.
+Proof.
+  intro Hphys. unfold Gen.decode_list_of_variable_length_items, decode_list_var, decode_list_var_full.
+  rewrite llen_len. destruct bs as [|b0 br] eqn:Ebs; [reflexivity|]. rewrite <- Ebs in *.
+  replace (len bs =? 0) with false by (symmetry; apply N.eqb_neq; subst bs; unfold len; cbn [length]; lia).
+  rewrite gen_read_offset_eq. destruct (read_offset bs) as [first| |] eqn:Er; cbn [bind fst]; try reflexivity.
+  rewrite gen_sanitize_offset_eq.
+  destruct (sanitize_offset first None (len bs) (Some first)) as [x| |] eqn:Es; cbn [bind fst]; try reflexivity.
+  rewrite gen_BYTES_PER_LENGTH_OFFSET. unfold BYTES_PER_LENGTH_OFFSET.
+  unfold usize_rem, usize_div. change (4 =? 0) with false. cbv iota. cbn [bind].
+  destruct (negb (first mod 4 =? 0) || (first <? 4)) eqn:Ec; [reflexivity|]. cbn [fst]. cbv zeta.
+  destruct (is_some_and max_len (fun m => m <? first / 4)) eqn:Em.
+  - reflexivity.
+  - cbn [fst].
+    (* first <= len bs: from sanitize_offset *)
+    assert (Hfirst : first <= len bs).
+    { unfold sanitize_offset in Es. cbn [is_some_and is_none] in Es.
+      destruct (first <? first); [discriminate|]. cbn [andb] in Es.
+      destruct (negb (first =? first)); [discriminate|].
+      destruct (len bs <? first) eqn:El; [discriminate|]. apply N.ltb_ge in El. exact El. }
+    apply Bool.orb_false_iff in Ec. destruct Ec as (Ec1 & Ec2).
+    apply Bool.negb_false_iff, N.eqb_eq in Ec1. apply N.ltb_ge in Ec2.
+    set (num := first / 4).
+    assert (Hnum : 4 * num <= usize_max) by (unfold num; lia).
+    assert (Hnum1 : 1 <= num) by (unfold num; lia).
+    change (map_state _ (range_incl 1 num) first) with (map_state (item_closure d bs first num) (range_up 1 (num + 1)) first).
+    pose proof (items_eq d bs first num Hnum (N.to_nat num) 1 first ltac:(lia) ltac:(lia)) as HI.
+    destruct (map_state (item_closure d bs first num) (range_up 1 (num + 1)) first) as [[xs o2]| |];
+      destruct (lv_items d bs first num (N.to_nat num) 1 first) as [[ys| |] cnt];
+      cbn [omap fst snd bind] in *; try discriminate; try reflexivity.
+    injection HI as <-. reflexivity.
+Qed.
+
+
+(** ** [SmallVec<[T; N]>] and [BTreeSet<T>]: the list decoder followed by the collection's [from_iter] *)
+Theorem gen_smallvec_from_ssz_bytes_eq {A} n (f : bool) (l : N) (d : bytes -> outcome A) bs :
+  len bs <= usize_max ->
+  Gen.smallvec_from_ssz_bytes n f l d bs = dec_seq f l d bs.
+Proof.
+  intro H. unfold Gen.smallvec_from_ssz_bytes, dec_seq. rewrite llen_len.
+  destruct bs as [|b0 br] eqn:Ebs; [reflexivity|]. rewrite <- Ebs in *.
+  replace (len bs =? 0) with false by (symmetry; apply N.eqb_neq; subst bs; unfold len; cbn [length]; lia).
+  destruct f; [destruct (l =? 0); reflexivity|].
+  rewrite gen_decode_list_container_eq by exact H. subst bs. unfold smallvec_try_from_iter.
+  destruct (decode_list_var d CVec (b0 :: br) None); reflexivity.
+Qed.
+
+Theorem gen_smallvec_is_dec_TList n t bs :
+  len bs <= usize_max ->
+  omap VList (Gen.smallvec_from_ssz_bytes n (d_is_fixed t) (d_fixed_len t) (dec t) bs) = dec (TList t) bs.
+Proof. intro H. rewrite gen_smallvec_from_ssz_bytes_eq by exact H. reflexivity. Qed.
+
+Lemma ord_insert_is_insert_entry e l : ord_insert val_cmp e l = insert_entry false e l.
+Proof. induction l as [|x r IH]; [reflexivity|]. cbn [ord_insert insert_entry entry_key]. rewrite IH. reflexivity. Qed.
+
+Lemma btreeset_from_iter_is_collect l : btreeset_from_iter val_cmp l = collect_entries false l.
+Proof.
+  unfold btreeset_from_iter, collect_entries. generalize (@nil val).
+  induction l as [|x r IH]; intro acc; cbn [fold_left]; [reflexivity|]. rewrite ord_insert_is_insert_entry. apply IH.
+Qed.
+
+Theorem gen_btreeset_is_dec_TSet t bs :
+  len bs <= usize_max ->
+  omap VList (Gen.btreeset_from_ssz_bytes (d_is_fixed t) (d_fixed_len t) (dec t) val_cmp bs) = dec (TSet t) bs.
+Proof.
+  intro H. unfold Gen.btreeset_from_ssz_bytes. cbn [dec]. unfold dec_seq. rewrite llen_len.
+  destruct bs as [|b0 br] eqn:Ebs; [reflexivity|]. rewrite <- Ebs in *.
+  replace (len bs =? 0) with false by (symmetry; apply N.eqb_neq; subst bs; unfold len; cbn [length]; lia).
+  destruct (d_is_fixed t).
+  - destruct (d_fixed_len t =? 0); [reflexivity|]. rewrite mapM_chunks_eq.
+    destruct (mapM (dec t) (chunks (N.to_nat (d_fixed_len t)) bs)) as [l| |]; cbn [omap]; try reflexivity.
+    rewrite btreeset_from_iter_is_collect. reflexivity.
+  - rewrite gen_decode_list_container_eq by exact H. subst bs. unfold btreeset_try_from_iter.
+    destruct (decode_list_var (dec t) CVec (b0 :: br) None) as [l| |]; cbn [bind omap]; try reflexivity.
+    rewrite btreeset_from_iter_is_collect. reflexivity.
+Qed.
+
 (** ** the rest of [SszDecoderBuilder] and [SszDecoder] *)
 Theorem gen_builder_new_eq bs :
   omap (fun s => (Gen.SszDecoderBuilder_bytes s, st_abs s)) (Gen.builder_new bs) = Ok (bs, builder_new).
@@ -313,6 +393,9 @@ Print Assumptions gen_arc_from_ssz_bytes_eq.
 Print Assumptions gen_array_from_ssz_bytes_eq.
 Print Assumptions gen_u256_from_ssz_bytes_eq.
 Print Assumptions gen_decode_list_vec_eq.
+Print Assumptions gen_decode_list_container_eq.
+Print Assumptions gen_smallvec_is_dec_TList.
+Print Assumptions gen_btreeset_is_dec_TSet.
 Print Assumptions gen_vec_is_dec_TList.
 Print Assumptions gen_builder_build_eq.
 Print Assumptions gen_decoder_decode_next_eq.
